@@ -555,6 +555,31 @@ def oracle_list(case):
     return fails[:3]
 
 
+def sides_clause(case, I):
+    """the property as stated on the two sides: a bond is in the centre iff its order differs between the reactant graph and
+    the product graph (absent = 0; under ignore_aromaticity: differs by at least 1) or both atoms are hydrogens.
+    Independent of the ITS's own order / standard_order attributes."""
+    from synkit.Graph.ITS.its_decompose import get_rc
+    G, H = P1._graphs_nx(case)
+    for Y in (G, H):
+        if any(not isinstance(d.get("order"), (int, float)) for _, _, d in Y.edges(data=True)):
+            return []
+    if any("element" not in d for _, d in I.nodes(data=True)):
+        return []
+    ia = bool(case.get("ia", False))
+    want = set()
+    for u, v in set(map(frozenset, G.edges)) | set(map(frozenset, H.edges)):
+        og = G[u][v]["order"] if G.has_edge(u, v) else 0
+        oh = H[u][v]["order"] if H.has_edge(u, v) else 0
+        if (abs(og - oh) >= 1 if ia else og != oh) or (I.nodes[u]["element"] == "H" and I.nodes[v]["element"] == "H"):
+            want.add(frozenset((u, v)))
+    got = {frozenset(e) for e in get_rc(I).edges}
+    if got != want:
+        return [dict(clause="centre-vs-sides", detail="centre bonds %r; bonds whose order differs between reactant and product graph%s, or H-H: %r"
+                     % (sorted(map(sorted, got)), " by at least 1 (ignore_aromaticity)" if ia else "", sorted(map(sorted, want))))]
+    return []
+
+
 def oracle(case):
     from synkit.Graph.ITS.its_decompose import get_rc
     if "X" in case:
@@ -566,10 +591,14 @@ def oracle(case):
     if "helpers" in case:
         return oracle_helpers(case)
     I = _its_nx(case)
-    cls = its_class(I) if I is not None else None
-    if cls is None:
+    if I is None:
         return []
+    side_fails = sides_clause(case, I) if "I" not in case else []
+    cls = its_class(I)
+    if cls is None:
+        return side_fails
     fails, rc = centre_clauses(I, cls)
+    fails = side_fails + fails
     # renumbering the atom maps yields an isomorphic centre
     if "pi" in case:
         import networkx as nx
@@ -905,6 +934,7 @@ def gen_corpus_ext(rng, n_sample):
         cases.append(dict(kind="corpus-ia", rsmi=r, src=src, ia=True, bal=rng.random() < 0.5))
         cases.append(dict(kind="rw-renum10", rsmi=X.renumber_into(r, rng, 10, 100), orig=r, src=src))
         cases.append(dict(kind="rw-renum100", rsmi=X.renumber_into(r, rng, 100, 1000), orig=r, src=src))
+        cases.append(dict(kind="help-corpus", rsmi=r, src=src, helpers=HELPER_RADII))
         rr = X.ring_digits_plus(r)
         if rr is not None:
             cases.append(dict(kind="rw-ring10", rsmi=X.renumber_into(rr, rng, 10, 100), orig=r, src=src))
